@@ -308,3 +308,25 @@ def trip_counts(body):
                 out[lp["head"]] = (n, blocks, bi, elems)
             break
     return out
+
+
+def on_every_cycle(body, bb):
+    """True when block `bb` lies on every cycle of the innermost natural loop that contains it (each iteration that
+    comes back to the loop head has passed through it); None when `bb` is in no loop."""
+    from .sym import Explorer
+
+    loops = Explorer(body).loops()
+    inside = [(len(blocks), h, blocks) for h, (blocks, _a) in loops.items() if bb in blocks]
+    if not inside:
+        return None
+    _n, h, blocks = min(inside)
+    seen, todo = set(), [s_ for s_ in body.succ(h) if s_ in blocks and s_ != bb]
+    while todo:
+        b_ = todo.pop()
+        if b_ == h:
+            return False
+        if b_ in seen:
+            continue
+        seen.add(b_)
+        todo += [s_ for s_ in body.succ(b_) if s_ in blocks and s_ != bb]
+    return True
